@@ -88,8 +88,17 @@ def dispatch (f : String) (j : Json) : Option Json :=
       let some e := (get j "edited").bind parseT | return Json.mkObj [("err", "bad edited")]
       let r := reconcile m e
       let res := applyOps r.ops (erase m)
+      -- optional: paths (from the root) of statements the harness found untouched; per path the hypothesis of
+      -- `untouched_kept` and whether some operation of the trace touches it
+      let paths : List Path := match (get j "paths").bind asArr with
+        | some a => a.toList.filterMap asNats
+        | none => []
       return Json.mkObj [("fail", Json.bool r.fail), ("ops", Json.arr (r.ops.map opJson).toArray),
-                         ("res_ok", Json.bool (beq res (erase e)))]
+                         ("res_ok", Json.bool (beq res (erase e))),
+                         ("wf", Json.bool (wfN m e)),                      -- side condition of `trace_correct`
+                         ("still", Json.bool (stillN m .none [] e)),       -- hypothesis of `no_change`
+                         ("kept", Json.arr (paths.map fun p => Json.bool (keptN m p .none [] e)).toArray),
+                         ("touched", Json.arr (paths.map fun p => Json.bool (r.ops.any fun o => touches o p)).toArray)]
   | _ => none
 
 end Pfst.Drv.C13
